@@ -138,6 +138,23 @@ Qed.
 Lemma nth_error_lt {A} (l : list A) i x : nth_error l i = Some x -> (i < length l)%nat.
 Proof. intros H. apply nth_error_Some. congruence. Qed.
 
+Lemma split_on_nonempty c s : split_on c s <> [].
+Proof.
+  destruct s as [|x s]; simpl; [discriminate|].
+  destruct (x =? c); [discriminate|]. destruct (split_on c s); discriminate.
+Qed.
+
+(* the first piece is a prefix *)
+Lemma split_on_head c : forall s h r, split_on c s = h :: r -> exists b, s = h ++ b.
+Proof.
+  induction s as [|y s IH]; intros h r E; simpl in E.
+  - inversion E; subst. exists []. reflexivity.
+  - destruct (y =? c).
+    + inversion E; subst. exists (y :: s). reflexivity.
+    + destruct (split_on c s) as [|h' r'] eqn:E'; [exfalso; exact (split_on_nonempty c s E')|].
+      injection E as Eh Er. subst h r. destruct (IH h' r' eq_refl) as [b ->]. exists b. reflexivity.
+Qed.
+
 (* pieces of split_on are contiguous substrings *)
 Lemma split_on_substr c : forall s p, In p (split_on c s) -> exists a b, s = a ++ p ++ b.
 Proof.
@@ -147,30 +164,10 @@ Proof.
     + destruct H as [<-|H].
       * exists [], (x :: s). reflexivity.
       * destruct (IH p H) as (a & b & ->). exists (x :: a), b. reflexivity.
-    + destruct (split_on c s) as [|h r] eqn:E.
-      * destruct H as [<-|[]]. destruct s; simpl in E; [discriminate|].
-        destruct (n =? c); [discriminate|]. destruct (split_on c s); discriminate.
-      * destruct H as [<-|H].
-        -- destruct (IH h (or_introl eq_refl)) as (a & b & Hs).
-           (* h is the first piece: it starts at position 0 *)
-           assert (Ha : exists b', s = h ++ b').
-           { clear -E. revert h r E. induction s as [|y s IHs]; intros h r E; simpl in E.
-             - inversion E; subst. exists []. reflexivity.
-             - destruct (y =? c).
-               + inversion E; subst. exists (y :: s). reflexivity.
-               + destruct (split_on c s) as [|h' r'] eqn:E'.
-                 * inversion E; subst. destruct s; simpl in E'; [discriminate|].
-                   destruct (n =? c); [discriminate|]. destruct (split_on c s); discriminate.
-                 * inversion E; subst. destruct (IHs h' r' eq_refl) as [b' ->].
-                   exists b'. reflexivity. }
-           destruct Ha as [b' ->]. exists [], b'. reflexivity.
-        -- destruct (IH p (or_intror H)) as (a & b & ->). exists (x :: a), b. reflexivity.
-Qed.
-
-Lemma split_on_nonempty c s : split_on c s <> [].
-Proof.
-  destruct s as [|x s]; simpl; [discriminate|].
-  destruct (x =? c); [discriminate|]. destruct (split_on c s); discriminate.
+    + destruct (split_on c s) as [|h r] eqn:E; [exfalso; exact (split_on_nonempty c s E)|].
+      destruct H as [<-|H].
+      * destruct (split_on_head c s h r E) as [b ->]. exists [], b. reflexivity.
+      * destruct (IH p (or_intror H)) as (a & b & ->). exists (x :: a), b. reflexivity.
 Qed.
 
 (* ------------------------------------------------------------------------------------ *)
@@ -539,18 +536,368 @@ Proof.
   rewrite (ascii_not_cont a Ha). simpl. reflexivity.
 Qed.
 
-Lemma wfs_app a : forall b, wfs a -> wfs (DOT :: b) -> wfs (a ++ DOT :: b).
+Lemma nca_app_noncont a : forall b y,
+  nca a = true -> nca (y :: b) = true -> cont y = false -> nca (a ++ y :: b) = true.
 Proof.
-  unfold wfs. induction a as [|x a IH]; intros b Ha Hb.
-  - simpl app. exact Hb.
-  - simpl in Ha. apply andb_true_iff in Ha as [H1 H2]. apply andb_true_iff in H2 as [H2 H3].
-    assert (IHa : nca (DOT :: a ++ DOT :: b) = true).
-    { apply IH; [|exact Hb]. simpl. rewrite H3, andb_true_r.
-      destruct a as [|y a']; [reflexivity|].
-      (* DOT is ASCII, so the head of a must not be a continuation byte; we only know that
-         when x is ASCII - otherwise derive it from the tail being well formed after x *)
-      simpl. destruct (cont y) eqn:Cy; [|reflexivity]. exfalso.
-      (* unreachable case is handled below by a stronger statement *)
-      admit. }
-    admit.
+  induction a as [|x a IH]; intros b y Ha Hb Hy; [exact Hb|].
+  simpl in Ha. apply andb_true_iff in Ha as [H1 H2].
+  change ((x :: a) ++ y :: b) with (x :: (a ++ y :: b)).
+  cbn [nca]. rewrite (IH b y H2 Hb Hy), andb_true_r.
+  destruct a as [|z a']; simpl app.
+  - rewrite Hy. apply orb_true_r.
+  - exact H1.
+Qed.
+
+Lemma wfs_app a b : wfs a -> wfs b -> wfs (a ++ DOT :: b).
+Proof.
+  unfold wfs. intros Ha Hb.
+  change (DOT :: a ++ DOT :: b) with ((DOT :: a) ++ DOT :: b).
+  apply nca_app_noncont; [exact Ha|exact Hb|reflexivity].
+Qed.
+
+Lemma nca_head_ascii a a' s : a < 128 -> a' < 128 -> nca (a :: s) = nca (a' :: s).
+Proof.
+  intros H H'. simpl.
+  replace (a <? 128) with true by (symmetry; apply N.ltb_lt; exact H).
+  replace (a' <? 128) with true by (symmetry; apply N.ltb_lt; exact H'). reflexivity.
+Qed.
+
+Lemma nca_escape : forall s x, nca (x :: s) = true -> nca (x :: escape_label s) = true.
+Proof.
+  induction s as [|a t IH]; intros x H; [exact H|].
+  unfold escape_label. cbn [flat_map]. fold (escape_label t).
+  cbn [nca] in H. apply andb_true_iff in H as [H1 H2].
+  destruct ((a =? DOT) || (a =? BSL)) eqn:E.
+  - assert (Ca : cont a = false).
+    { apply orb_true_iff in E as [E|E]; apply N.eqb_eq in E; subst a; reflexivity. }
+    simpl app. cbn [nca]. rewrite Ca. simpl.
+    replace (cont BSL) with false by reflexivity. rewrite orb_true_r. simpl.
+    rewrite orb_true_r. simpl. fold (nca (a :: escape_label t)). apply IH. exact H2.
+  - simpl app. cbn [nca]. rewrite H1. simpl. fold (nca (a :: escape_label t)). apply IH. exact H2.
+Qed.
+
+Lemma wfs_escape s : wfs s -> wfs (escape_label s).
+Proof. unfold wfs. apply nca_escape. Qed.
+
+Lemma wfs_skipn_after d i a :
+  nca d = true -> nth_error d i = Some a -> a < 128 -> wfs (skipn (S i) d).
+Proof.
+  intros Hn Hi Ha. unfold wfs.
+  rewrite (nca_head_ascii DOT a) by (unfold DOT; lia || exact Ha).
+  assert (Hd : d = firstn i d ++ a :: skipn (S i) d).
+  { rewrite <- (firstn_skipn i d) at 1. f_equal.
+    clear Hn. revert d Hi. induction i as [|i IH]; intros d Hi; destruct d as [|y d]; try discriminate.
+    - simpl in Hi. inversion Hi; subst. reflexivity.
+    - simpl in Hi. simpl. apply IH. exact Hi. }
+  rewrite Hd in Hn. apply nca_app_r in Hn. exact Hn.
+Qed.
+
+Lemma split_sub_domain_wfs ty : utf8_valid ty = true -> wfs (fst (split_sub_domain ty)).
+Proof.
+  intros Hv. unfold split_sub_domain.
+  destruct (rfind_sub sub_marker ty) as [i|] eqn:R; simpl; [|apply valid_wfs; exact Hv].
+  apply rfind_sub_some in R.
+  assert (P5 : nth_error ty (i + 5) = Some DOT) by (eapply prefixb_skipn_nth; [exact R|reflexivity]).
+  replace (i + length sub_marker)%nat with (S (i + 5)) by (simpl; lia).
+  eapply wfs_skipn_after; [apply valid_nca; exact Hv|exact P5|unfold DOT; lia].
+Qed.
+
+Lemma api_register_names_total full server sub :
+  nca full = true -> total (api_register_names full server sub).
+Proof.
+  intros Hn. unfold api_register_names.
+  apply total_bind; [apply check_service_name_total_nca; exact Hn|]. intros _ _.
+  apply total_bind; [apply check_hostname_total|]. intros _ _.
+  apply total_bind; [apply check_label_lengths_total|]. intros _ _.
+  apply total_bind; [apply check_label_lengths_total|]. intros _ _.
+  destruct sub; [apply check_label_lengths_total|apply total_ok].
+Qed.
+
+Lemma si_names_fullname ty nm host tyd sub full server :
+  si_names ty nm host = Ok (tyd, sub, full, server) ->
+  tyd = fst (split_sub_domain ty) /\ sub = snd (split_sub_domain ty)
+  /\ full = escape_label nm ++ DOT :: tyd /\ normalize_hostname host = Ok server.
+Proof.
+  unfold si_names. destruct (split_sub_domain ty) as [t sb].
+  destruct (normalize_hostname host) as [r| | |]; simpl; try discriminate.
+  intros H. inversion H; subst. auto.
+Qed.
+
+Lemma api_register_total ty nm host :
+  utf8_valid ty = true -> utf8_valid nm = true -> total (api_register ty nm host).
+Proof.
+  intros Hty Hnm. unfold api_register.
+  destruct (si_names_total ty nm host) as [[[[tyd sub] full] server] E]. rewrite E. cbn [bind].
+  apply si_names_fullname in E as (-> & _ & -> & _).
+  apply api_register_names_total. apply wfs_nca.
+  apply wfs_app; [apply wfs_escape, valid_wfs; exact Hnm|apply split_sub_domain_wfs; exact Hty].
+Qed.
+
+(* ------------------------------------------------------------------------------------ *)
+(* 5. the encoder's label split                                                           *)
+(* ------------------------------------------------------------------------------------ *)
+
+Definition good (R : N -> Prop) (l : bytes) : Prop := l <> [] /\ Forall R l.
+
+Lemma push_label_good R cur acc :
+  Forall R cur -> Forall (good R) acc -> Forall (good R) (push_label cur acc).
+Proof.
+  intros Hc Ha. destruct cur as [|c cur']; [exact Ha|].
+  simpl. constructor; [split; [discriminate|exact Hc]|exact Ha].
+Qed.
+
+Lemma pen_good_len R n : forall s cur acc, (length s <= n)%nat ->
+  Forall R s -> Forall R cur -> Forall (good R) acc -> Forall (good R) (pen s cur acc).
+Proof.
+  induction n as [|n IH]; intros s cur acc Hl Hs Hc Ha.
+  - destruct s; [|simpl in Hl; lia]. simpl. apply Forall_rev. apply push_label_good; assumption.
+  - destruct s as [|c t].
+    { simpl. apply Forall_rev. apply push_label_good; assumption. }
+    inversion Hs as [|? ? Rc Rt]; subst. simpl in Hl.
+    cbn [pen]. destruct (c =? BSL).
+    + destruct t as [|m t'].
+      * apply IH; [simpl; lia|constructor|apply Forall_app; split; [exact Hc|constructor; [exact Rc|constructor]]|exact Ha].
+      * inversion Rt as [|? ? Rm Rt']; subst.
+        destruct ((m =? DOT) || (m =? BSL)).
+        -- apply IH; [simpl in *; lia|exact Rt'|apply Forall_app; split; [exact Hc|constructor; [exact Rm|constructor]]|exact Ha].
+        -- apply IH; [simpl in *; lia|exact Rt|apply Forall_app; split; [exact Hc|constructor; [exact Rc|constructor]]|exact Ha].
+    + destruct (c =? DOT).
+      * apply IH; [lia|exact Rt|constructor|apply push_label_good; assumption].
+      * apply IH; [lia|exact Rt|apply Forall_app; split; [exact Hc|constructor; [exact Rc|constructor]]|exact Ha].
+Qed.
+
+Lemma strip_dot_Forall R s : Forall R s -> Forall R (strip_dot s).
+Proof.
+  intros H. unfold strip_dot. destruct (rev s) as [|c r] eqn:E; [exact H|].
+  destruct (c =? DOT); [|exact H].
+  assert (Hr : Forall R (rev s)) by (apply Forall_rev; exact H).
+  rewrite E in Hr. inversion Hr; subst. apply Forall_rev. assumption.
+Qed.
+
+(* every label the encoder derives from a name is non-empty and consists of bytes of the name *)
+Lemma name_labels_good R name : Forall R name -> Forall (good R) (name_labels name).
+Proof.
+  intros H. unfold name_labels, parse_escaped_name.
+  apply (pen_good_len R (length (strip_dot name))); [lia|apply strip_dot_Forall; exact H|constructor|constructor].
+Qed.
+
+Lemma wf_bytesb_Forall l : Forall (fun b => b < 256) l -> wf_bytesb l = true.
+Proof.
+  intros H. unfold wf_bytesb. apply forallb_forall. intros x Hx.
+  apply N.ltb_lt. rewrite Forall_forall in H. apply H. exact Hx.
+Qed.
+
+(* a name whose labels pass the length check has only labels the encoder accepts *)
+Lemma labels_fit_label_ok name :
+  wf_bytes name -> labels_fit name = true -> forallb label_ok (name_labels name) = true.
+Proof.
+  intros Hw Hf. unfold labels_fit in Hf. rewrite forallb_forall in Hf.
+  apply forallb_forall. intros l Hl.
+  pose proof (name_labels_good (fun b => b < 256) name Hw) as Hg.
+  rewrite Forall_forall in Hg. destruct (Hg l Hl) as [Hne Hb].
+  specialize (Hf l Hl). rewrite label_fits_pinned in Hf. apply N.ltb_lt in Hf.
+  unfold label_ok. rewrite (wf_bytesb_Forall l Hb), andb_true_r.
+  apply andb_true_iff. split; apply N.leb_le.
+  - unfold blen. destruct l; [congruence|]. simpl length. lia.
+  - lia.
+Qed.
+
+Lemma label_ok_bounds name :
+  forallb label_ok (name_labels name) = true ->
+  Forall (fun l => 1 <= blen l /\ blen l <= 63) (name_labels name).
+Proof.
+  intros H. rewrite forallb_forall in H. apply Forall_forall. intros l Hl.
+  apply label_ok_inv. apply H. exact Hl.
+Qed.
+
+Lemma check_label_lengths_ok name : check_label_lengths name = Ok tt -> labels_fit name = true.
+Proof. unfold check_label_lengths. destruct (labels_fit name); [reflexivity|discriminate]. Qed.
+
+Lemma bind_ok_unit {B} (r : res unit) (f : unit -> res B) b : bind r f = Ok b -> r = Ok tt /\ f tt = Ok b.
+Proof. destruct r as [[]| | |]; simpl; try discriminate. auto. Qed.
+
+(* accepted by browse *)
+Lemma browse_accepted_encodable ty :
+  wf_bytes ty -> api_browse ty = Ok tt -> forallb label_ok (name_labels ty) = true.
+Proof.
+  intros Hw H. unfold api_browse in H. apply bind_ok_unit in H as [_ H].
+  apply labels_fit_label_ok; [exact Hw|apply check_label_lengths_ok; exact H].
+Qed.
+
+Lemma resolve_accepted_encodable h :
+  wf_bytes h -> api_resolve_hostname h = Ok tt -> forallb label_ok (name_labels h) = true.
+Proof.
+  intros Hw H. unfold api_resolve_hostname in H. apply bind_ok_unit in H as [_ H].
+  apply labels_fit_label_ok; [exact Hw|apply check_label_lengths_ok; exact H].
+Qed.
+
+(* ---- the type part of an accepted registration ---- *)
+
+Lemma pen_escape : forall s rest cur acc,
+  pen (escape_label s ++ rest) cur acc = pen rest (cur ++ s) acc.
+Proof.
+  induction s as [|a t IH]; intros rest cur acc.
+  - simpl. rewrite app_nil_r. reflexivity.
+  - unfold escape_label. cbn [flat_map]. fold (escape_label t).
+    destruct ((a =? DOT) || (a =? BSL)) eqn:E.
+    + simpl app. cbn [pen]. rewrite N.eqb_refl. rewrite E.
+      rewrite IH. rewrite <- app_assoc. reflexivity.
+    + apply orb_false_iff in E as [E1 E2]. simpl app. cbn [pen]. rewrite E2, E1.
+      rewrite IH. rewrite <- app_assoc. reflexivity.
+Qed.
+
+Lemma pen_acc_len n : forall s cur acc, (length s <= n)%nat -> pen s cur acc = rev acc ++ pen s cur [].
+Proof.
+  assert (PL : forall cur acc, rev (push_label cur acc) = rev acc ++ rev (push_label cur [])).
+  { intros cur acc. destruct cur; simpl; [rewrite app_nil_r; reflexivity|reflexivity]. }
+  induction n as [|n IH]; intros s cur acc Hl.
+  - destruct s; [|simpl in Hl; lia]. simpl. apply PL.
+  - destruct s as [|c t]; [simpl; apply PL|]. simpl in Hl. cbn [pen].
+    destruct (c =? BSL).
+    + destruct t as [|m t'].
+      * apply IH. simpl. lia.
+      * destruct ((m =? DOT) || (m =? BSL)); apply IH; simpl in *; lia.
+    + destruct (c =? DOT).
+      * rewrite (IH t [] (push_label cur acc)) by lia.
+        rewrite (IH t [] (push_label cur [])) by lia. rewrite PL, <- app_assoc. reflexivity.
+      * apply IH. lia.
+Qed.
+
+Lemma pen_acc s cur acc : pen s cur acc = rev acc ++ pen s cur [].
+Proof. apply (pen_acc_len (length s)). lia. Qed.
+
+(* the labels of `escaped-instance . rest` are the instance (if not empty) followed by the
+   labels of `rest` *)
+Lemma pen_instance_dot nm rest :
+  pen (escape_label nm ++ DOT :: rest) [] [] = rev (push_label nm []) ++ pen rest [] [].
+Proof.
+  rewrite pen_escape. simpl app. destruct nm as [|a t].
+  - cbn [pen]. replace (DOT =? BSL) with false by reflexivity. rewrite N.eqb_refl. reflexivity.
+  - cbn [pen]. replace (DOT =? BSL) with false by reflexivity. rewrite N.eqb_refl.
+    rewrite pen_acc. reflexivity.
+Qed.
+
+Lemma strip_dot_app_cons a x b : strip_dot (a ++ x :: b) = a ++ strip_dot (x :: b).
+Proof.
+  unfold strip_dot. rewrite rev_app_distr.
+  destruct (rev (x :: b)) as [|c r] eqn:E.
+  - exfalso. apply (f_equal (@length N)) in E. rewrite rev_length in E. simpl in E. lia.
+  - simpl app. destruct (c =? DOT); [|reflexivity].
+    rewrite rev_app_distr, rev_involutive. reflexivity.
+Qed.
+
+Lemma strip_dot_cons_dot ty : ty <> [] -> strip_dot (DOT :: ty) = DOT :: strip_dot ty.
+Proof.
+  intros H. destruct ty as [|y t]; [congruence|].
+  change (DOT :: y :: t) with ([DOT] ++ y :: t). rewrite strip_dot_app_cons. reflexivity.
+Qed.
+
+Lemma Forall_app_r {A} (P : A -> Prop) a b : Forall P (a ++ b) -> Forall P b.
+Proof. intros H. apply Forall_app in H. tauto. Qed.
+
+(* if the full name of a registration has only encodable labels, so has its type *)
+Lemma fullname_type_labels P nm ty :
+  Forall P (name_labels (escape_label nm ++ DOT :: ty)) -> Forall P (name_labels ty).
+Proof.
+  unfold name_labels, parse_escaped_name. intros H.
+  destruct ty as [|y t].
+  - simpl. constructor.
+  - rewrite strip_dot_app_cons, strip_dot_cons_dot in H by discriminate.
+    rewrite pen_instance_dot in H. apply Forall_app_r in H. exact H.
+Qed.
+
+Lemma forallb_Forall {A} (f : A -> bool) l : forallb f l = true <-> Forall (fun x => f x = true) l.
+Proof. rewrite forallb_forall, Forall_forall. tauto. Qed.
+
+Lemma wf_bytes_app a b : wf_bytes a -> wf_bytes b -> wf_bytes (a ++ b).
+Proof. intros. apply Forall_app. tauto. Qed.
+
+Lemma escape_label_wf s : wf_bytes s -> wf_bytes (escape_label s).
+Proof.
+  intros H. unfold escape_label. induction H as [|x l Hx Hl IH]; [constructor|].
+  cbn [flat_map]. destruct ((x =? DOT) || (x =? BSL)).
+  - constructor; [unfold BSL; lia|]. constructor; [exact Hx|exact IH].
+  - constructor; [exact Hx|exact IH].
+Qed.
+
+Lemma skipn_wf n s : wf_bytes s -> wf_bytes (skipn n s).
+Proof.
+  intros H. unfold wf_bytes in *. rewrite <- (firstn_skipn n s) in H. apply Forall_app in H. tauto.
+Qed.
+
+Lemma firstn_wf n s : wf_bytes s -> wf_bytes (firstn n s).
+Proof.
+  intros H. unfold wf_bytes in *. rewrite <- (firstn_skipn n s) in H. apply Forall_app in H. tauto.
+Qed.
+
+Lemma normalize_hostname_wf h r : wf_bytes h -> normalize_hostname h = Ok r -> wf_bytes r.
+Proof.
+  unfold normalize_hostname. intros Hw. destruct (ends_with h local_local_suffix).
+  - destruct (length h <? 6)%nat; [discriminate|]. unfold slice.
+    destruct (_ && _); [|discriminate]. intros H. inversion H; subst.
+    apply firstn_wf. apply skipn_wf. exact Hw.
+  - intros H. inversion H; subst. exact Hw.
+Qed.
+
+(* accepted by register: the full name, the type, the subtype and the host name are all
+   encodable *)
+Lemma register_accepted_encodable ty nm host tyd sub full server :
+  wf_bytes ty -> wf_bytes nm -> wf_bytes host ->
+  si_names ty nm host = Ok (tyd, sub, full, server) ->
+  api_register ty nm host = Ok tt ->
+  forallb label_ok (name_labels full) = true
+  /\ forallb label_ok (name_labels tyd) = true
+  /\ forallb label_ok (name_labels server) = true
+  /\ (forall s, sub = Some s -> forallb label_ok (name_labels s) = true).
+Proof.
+  intros Wty Wnm Whost E H. unfold api_register in H. rewrite E in H. cbn [bind] in H.
+  apply si_names_fullname in E as (Et & Es & Ef & En).
+  unfold api_register_names in H.
+  apply bind_ok_unit in H as [_ H]. apply bind_ok_unit in H as [_ H].
+  apply bind_ok_unit in H as [H1 H]. apply bind_ok_unit in H as [H2 H].
+  assert (Wtyd : wf_bytes tyd).
+  { subst tyd. unfold split_sub_domain. destruct (rfind_sub sub_marker ty); simpl; [apply skipn_wf|]; exact Wty. }
+  assert (Wfull : wf_bytes full).
+  { subst full. apply wf_bytes_app; [apply escape_label_wf; exact Wnm|]. constructor; [unfold DOT; lia|exact Wtyd]. }
+  assert (Lfull : forallb label_ok (name_labels full) = true)
+    by (apply labels_fit_label_ok; [exact Wfull|apply check_label_lengths_ok; exact H1]).
+  split; [exact Lfull|]. split.
+  - apply forallb_Forall. apply forallb_Forall in Lfull. rewrite Ef in Lfull.
+    eapply fullname_type_labels. exact Lfull.
+  - split.
+    + apply labels_fit_label_ok; [eapply normalize_hostname_wf; eassumption|apply check_label_lengths_ok; exact H2].
+    + intros s Hs. subst sub.
+      assert (s = ty).
+      { unfold split_sub_domain in Hs. destruct (rfind_sub sub_marker ty); simpl in Hs; [inversion Hs; reflexivity|discriminate]. }
+      subst s. rewrite Hs in H.
+      apply labels_fit_label_ok; [exact Wty|apply check_label_lengths_ok; exact H].
+Qed.
+
+(* ------------------------------------------------------------------------------------ *)
+(* 6. refutations                                                                         *)
+(* ------------------------------------------------------------------------------------ *)
+
+Definition x_tcp : bytes := [95;120;46;95;116;99;112;46;108;111;99;97;108;46].   (* _x._tcp.local. *)
+Definition h_local : bytes := [104;46;108;111;99;97;108;46].                      (* h.local. *)
+Definition rep (b : N) (n : nat) : bytes := repeat b n.
+
+(* a 60-byte instance name is accepted by register; the name the conflict handler derives
+   from it has a 64-byte first label *)
+Lemma rename_refuted :
+  exists ty nm host full renamed,
+    api_register ty nm host = Ok tt
+    /\ full = escape_label nm ++ DOT :: ty
+    /\ name_change full = Ok renamed
+    /\ encodable renamed = false
+    /\ (forall t pos, write_name t pos renamed = Panic).
+Proof.
+  exists x_tcp, (rep 97 60), h_local, (escape_label (rep 97 60) ++ DOT :: x_tcp),
+         (rep 97 60 ++ [SPC; LPAR; 50; RPAR] ++ DOT :: x_tcp).
+  split; [vm_compute; reflexivity|]. split; [reflexivity|].
+  split; [vm_compute; reflexivity|]. split; [vm_compute; reflexivity|].
+  intros t pos. unfold write_name.
+  replace (name_labels (rep 97 60 ++ [SPC; LPAR; 50; RPAR] ++ DOT :: x_tcp))
+    with [rep 97 60 ++ [SPC; LPAR; 50; RPAR]; [95;120]; [95;116;99;112]; [108;111;99;97;108]]
+    by (vm_compute; reflexivity).
+  cbn [write_labels]. destruct (lookup _ t); [|reflexivity].
 Abort.
